@@ -156,12 +156,21 @@ class Stream:
             return d
 
         self._closing_deferred = defer.Deferred()
+        # every caller gets a Deferred of its own: whatever one of them
+        # does with it (returning a Deferred from a callback,
+        # cancelling) must not reach the others
+        result = defer.Deferred()
+
+        def first_closed(arg):
+            result.callback(arg)
+            return arg
+        self._closing_deferred.addBoth(first_closed)
 
         def close_command_is_queued(*args):
             return self._closing_deferred
         d = self.circuit_container.close_stream(self, **kw)
         d.addCallback(close_command_is_queued)
-        return self._closing_deferred
+        return result
 
     def _create_flags(self, kw):
         """
